@@ -5,6 +5,7 @@ from . import common, cv_checks
 KF_FS = 'label-omits-required-records'
 KF_NESTED = cv_checks.KF_NESTED
 KF_DENSE = 'label-omits-record-in-dense-cluster'
+KF_UNION = 'label-unions-exclusive-records'
 
 
 def judge(ctx, res, stream):
@@ -45,6 +46,11 @@ def judge(ctx, res, stream):
                                 for om in extra if om)
                     if close and 'SECT-' not in entry and 'W2F-' not in entry:
                         key = KF_DENSE
+            sub = r.get('subset_witness', {}).get(entry)
+            if not problem and key is None and sub:
+                how = (f' (the records {[idnames.get(int(x)) for x in sub]} alone are a witness: the entry '
+                       'also names records that cannot be combined with them)')
+                key = KF_UNION
             if not problem and cv_checks.has_nested(r):
                 # label bookkeeping inside a splicing insertion that carries records of its own
                 key = KF_NESTED
